@@ -535,4 +535,17 @@ Section Roundtrip.
     rewrite (resolve_merge_leaf body patch field (JEnc essence) (wf_along_wf_path _ _ W) NE R eq_refl ltac:(discriminate)).
     destruct essence; try congruence; cbn; reflexivity.
   Qed.
+
+  (* C16 isolation with a PENDING patch: whatever earlier operations of the same cycle have left in the shared patch for
+     any other annotation - another handler's record, its purge - is exactly what stays there after this handler's store. *)
+  Theorem ann_store_keeps_pending prefix v1 verbose tk key record body p patch k' :
+    pstore dg (PAnn prefix v1 verbose tk) key record body p = Ok patch ->
+    ~ In k' (full_keys dg prefix v1 body key) -> k' <> (prefix ++ "/" ++ marker_name)%string ->
+    resolve patch (ann_path k') = resolve p (ann_path k').
+  Proof.
+    cbn [pstore]. intros H NI NM.
+    match type of H with bind ?e _ = _ => destruct e as [p1| | |] eqn:E; try discriminate end.
+    cbn [bind] in H.
+    rewrite (store_marker_other prefix body p1 patch k' NM H). apply (ensure_all_other _ _ _ _ k' NI E).
+  Qed.
 End Roundtrip.
